@@ -89,3 +89,4 @@ class Struct:
     passes: List[Tuple[str, str]] = dfield(default_factory=list)
     doc: bool = False
     twin: bool = False          # emit Debug twin
+    ctab: bool = False          # emit compile-time tables (C15)
